@@ -802,7 +802,12 @@ def _check_tf_with(ctx, before, after, included, active, m, B, A, fscale):
             w = R.fr(g["width"])
             if w != 0:
                 ctx.bump("tf_included_empty_with_advance")
-                if abs(R.fr(a["width"]) - m[0] * w) > TOL_TF * max(1, abs(w)):
+                # same two admissible forms as for glyphs with content: width * ScaleX, or the
+                # vector (width, height) under the linear part (slant x height leaks in)
+                h = R.fr(g["height"] or 0)
+                w_vec, _h = R.apply((m[0], m[1], m[2], m[3], 0, 0), w, h)
+                dev_ = TOL_TF * max(1, abs(w), abs(h), abs(w_vec))
+                if abs(R.fr(a["width"]) - m[0] * w) > dev_ and abs(R.fr(a["width"]) - w_vec) > dev_:
                     ctx.bad("tf_empty_glyph_advance_not_mapped", glyph=name, width=g["width"],
                             expected=float(m[0] * w), got=a["width"], options=opts)
 
